@@ -156,6 +156,28 @@ class JumpToStageHandler(StabilizeHandler[JumpToStage]):
                 )
                 return
 
+            # A jump is only meaningful while its source stage is still RUNNING in a
+            # live execution. After a cancel (or once the source was completed or
+            # re-armed by other means) the message is stale: applying it would
+            # re-arm already canceled stages or overwrite a final status.
+            if execution.is_canceled or execution.status.is_complete or source_stage.status != WorkflowStatus.RUNNING:
+                logger.info(
+                    "Ignoring stale JumpToStage from %s to %s (execution canceled=%s status=%s, source status=%s)",
+                    source_stage.ref_id,
+                    message.target_stage_ref_id,
+                    execution.is_canceled,
+                    execution.status,
+                    source_stage.status,
+                )
+                if message.message_id:
+                    with self.repository.transaction(self.queue) as txn:
+                        txn.mark_message_processed(
+                            message_id=message.message_id,
+                            handler_type="JumpToStage",
+                            execution_id=message.execution_id,
+                        )
+                return
+
             # Find target stage by ref_id
             target_stage = execution.stage_by_ref_id(message.target_stage_ref_id)
 
